@@ -113,6 +113,13 @@ claim('C16', 'exploration', 'runtime monitor: REPL oracle over command families 
       'no-newline outputs and incomplete constructs; every return value compared with the generator\'s expected text.',
       'Violations must reproduce in two further serial runs (replwrap has hard-coded 1 s waits); zsh absent.', '5/C16')
 
+claim('C14', 'exploration', 'runtime monitor: twin comparison (blocking vs awaited vs mixed) with delivery units released at shared boundaries',
+      'Three fdspawn twins on pipes receive the same delivery units at the same logical points (wrappers on '
+      'Expecter.existing_data/new_data); outcomes of every call compared up to and including the first EOF, incl. units '
+      'arriving while no call is outstanding, coalesced units, EOF with the last data, mixed blocking/awaited calls on one '
+      'object; awaited TIMEOUTs bounded; dedicated timeout=0 sub-check.',
+      'Differences must reproduce in two serial re-runs; _async_pre_await.py not importable on 3.12.', '5/C14')
+
 PENDING = {
 }
 
